@@ -76,6 +76,7 @@ class _Ctx(object):
         self.task = 'ctor'
         self.fired = {}
         self.unraisable = []
+        self.slept_ms = 0        # simulated sleeps (petl.util.random `wait`)
 
     def fire(self, kind, n=1):
         self.fired[kind] = self.fired.get(kind, 0) + n
@@ -533,6 +534,7 @@ class SimClock(object):
     def sleep(self, s):
         self.slept += 1
         self.ticks += int(s * 1000)
+        CTX.slept_ms += int(s * 1000)
         CTX.fire('sleep-simulated')
 
     @property
